@@ -313,12 +313,6 @@ Section Bar.
   Qed.
 End Bar.
 
-(* the program guard in terms of the Barendregt condition *)
-Definition def_guard_b (p : fcprog) (d : fdef) : bool :=
-  frag p (fdbody d) && ws (compile_ctx (fdctx d)) (fdbody d)
-  && (if String.eqb (fdname d) "main" then data_ty p (fterm_type (fdbody d)) else true).
-Definition frag_prog (p : fcprog) : bool := forallb (def_guard_b p) (fcpdefs p).
-
 Theorem barendregt_prog_guard : forall p, frag_prog p = true -> barendregt p = true -> prog_guard p = true.
 Proof.
   intros p Hf Hb. unfold prog_guard, frag_prog, barendregt in *. rewrite forallb_forall in *.
